@@ -183,6 +183,7 @@ def check_property(pid, tier, seed):
             "canaries_total": r.canaries_total, "generated_file_sha": r.meta["text_sha"][:16],
             "extraction_notes": r.meta["notes"], "checker_cmd": r.cmd,
             "failed_obligations": [f.obligation for f in r.failures],
+            "desugared": r.meta.get("desugared", []),
         }
     for kr in kres:
         units_ev["kani/" + kr.group] = kr.evidence()
